@@ -1,15 +1,20 @@
 (* C17 - the hyperparameter guard chain of DistributedShampoo.__init__ (everything before `super().__init__`), as
    regenerated from the Python source (GenC17.init_guards), agrees with the hand-written model Hyper.init on every
    configuration: the same guard fires (raise statements identified by their position in the source), and when none
-   fires the two substituted defaults are the model's and the model continues with `dispatch`. *)
-From Coq Require Import ZArith QArith List Bool.
+   fires the two substituted defaults are the model's and the model continues with `dispatch`.
+   The `__post_init__` guards of the grafting / preconditioner config dataclasses (shampoo_types.py) are regenerated too
+   (which method runs for which class is resolved from the class hierarchy of the source: sgd_/adam_/shampoo_pc_/
+   eigcorr_pc_post_init), so that the whole constructor model Hyper.ctor is a function of generated definitions. *)
+From Coq Require Import ZArith QArith List Bool Lia.
 From Shampoo Require Import Hyper.
 From ShampooGen Require Import PyPrelude PyPreludeFacts GenC17.
 Import ListNotations.
 
 (* the k-th `raise ValueError` of __init__ in source order is the model's guard ... *)
 Definition guard_of_site (k : nat) : guard :=
-  nth k [GLr; GBeta1; GBeta2; GBeta3; GEps; GMomentum; GDampening; GWd; GMpd; GFreq; GStartLow; GIro; GIro; GStartFreq; GIgnoredIro] GLr.
+  nth k [GLr; GBeta1; GBeta2; GBeta3; GEps; GMomentum; GDampening; GWd; GMpd; GFreq; GStartLow; GIro; GIro; GStartFreq; GIgnoredIro;
+         (* 15.. : AdaGradGraftingConfig, RMSpropGraftingConfig, PreconditionerConfig (x2) .__post_init__ *)
+         GGraftEps; GGraftBeta2; GNumTolerated; GIgnoredUnique] GLr.
 
 Definition agrees (model rest : Hyper.result) (b3 st : pynum) (g : PyPrelude.result (pynum * pynum)) : Prop :=
   match g with
@@ -42,3 +47,97 @@ Proof.
     repeat head_step; cbn [agrees]; cbn [negb andb orb]; repeat split; reflexivity.
 Qed.
 Print Assumptions gen_init_guards_eq_model.
+
+(* ---- the config dataclasses ---------------------------------------------------------------------------------- *)
+
+Lemma memZ_In x l : memZ x l = true <-> In x l.
+Proof.
+  induction l as [|y l IH]; cbn [memZ In]; [split; [discriminate|contradiction]|].
+  rewrite orb_true_iff, IH, Z.eqb_eq. split; intros [H|H]; auto.
+Qed.
+
+(* len(l) == len(set(l))  is the model's nodupb *)
+Lemma len_set_nodupb l : (py_len l =? py_len_set l)%Z = nodupb l.
+Proof.
+  unfold py_len_set, py_len.
+  assert (Hle : forall l : list Z, (length (nodup Z.eq_dec l) <= length l)%nat).
+  { induction l0 as [|x l0 IH]; cbn [nodup length]; [lia|]. destruct (in_dec Z.eq_dec x l0); cbn [length]; lia. }
+  induction l as [|x l IH]; [reflexivity|].
+  cbn [nodup nodupb length]. destruct (in_dec Z.eq_dec x l) as [Hin|Hnin].
+  - apply memZ_In in Hin. rewrite Hin. cbn [negb andb]. apply Z.eqb_neq. specialize (Hle l). lia.
+  - assert (memZ x l = false) as -> by (destruct (memZ x l) eqn:E; [apply memZ_In in E; contradiction|reflexivity]).
+    cbn [negb andb length]. rewrite <- IH.
+    destruct (Z.eqb_spec (Z.of_nat (length l)) (Z.of_nat (length (nodup Z.eq_dec l)))); [apply Z.eqb_eq|apply Z.eqb_neq]; lia.
+Qed.
+
+(* which generated __post_init__ runs for the configuration r (GraftNone: no object is built; the model's unsupported
+   kinds are subclasses without validated fields of their own: GraftingConfig itself / a PreconditionerConfig subclass) *)
+Definition gen_graft_post_init (r : raw_cfg) : PyPrelude.result unit :=
+  match gkind r with
+  | GraftNone | GraftUnsupported => Ret tt
+  | GraftSGD => GenC17.sgd_post_init
+  | GraftAdaGrad => GenC17.adagrad_post_init (geps r)
+  | GraftRMSprop => GenC17.rmsprop_post_init (geps r) (gb2 r)
+  | GraftAdam => GenC17.adam_post_init (geps r) (gb2 r)
+  end.
+
+Definition gen_pc_post_init (r : raw_cfg) : PyPrelude.result unit :=
+  match pc_kind r with
+  | PCShampoo => GenC17.shampoo_pc_post_init (nt r) (ignored r)
+  | PCEigenvalueCorrected => GenC17.eigcorr_pc_post_init (nt r) (ignored r)
+  | PCUnsupported => GenC17.preconditioner_post_init (nt r) (ignored r)
+  end.
+
+Definition guard_outcome (g : PyPrelude.result unit) : option (option guard) :=
+  match g with Ret tt => Some None | Raise ValueError k => Some (Some (guard_of_site k)) | _ => None end.
+
+Theorem gen_graft_post_init_eq_model : forall r, guard_outcome (gen_graft_post_init r) = Some (Hyper.graft_post_init r).
+Proof.
+  intro r. unfold gen_graft_post_init, Hyper.graft_post_init, GenC17.adam_post_init, GenC17.rmsprop_post_init, GenC17.adagrad_post_init,
+    GenC17.sgd_post_init, ok_geps, ok_gb2, fl0, fl1.
+  destruct (gkind r); try reflexivity;
+    destruct (pn_ltb (PFlt (0 # 1)) (geps r)); cbn [negb bind guard_outcome]; try reflexivity;
+    destruct (pn_ltb (PFlt (0 # 1)) (gb2 r) && pn_leb (gb2 r) (PFlt (1 # 1))); reflexivity.
+Qed.
+Print Assumptions gen_graft_post_init_eq_model.
+
+Theorem gen_pc_post_init_eq_model : forall r, guard_outcome (gen_pc_post_init r) = Some (Hyper.pc_post_init r).
+Proof.
+  intro r. unfold gen_pc_post_init, Hyper.pc_post_init, GenC17.shampoo_pc_post_init, GenC17.eigcorr_pc_post_init,
+    GenC17.preconditioner_post_init, bad_nt, i0.
+  rewrite len_set_nodupb.
+  destruct (pc_kind r); destruct (pn_ltb (nt r) (PInt 0)); try reflexivity; destruct (nodupb (ignored r)); reflexivity.
+Qed.
+Print Assumptions gen_pc_post_init_eq_model.
+
+(* the whole constructor model, computed from generated definitions only (+ the model's `dispatch` for what follows the guards) *)
+Definition gen_ctor (r : raw_cfg) (use_nesterov : bool) : option Hyper.result :=
+  match guard_outcome (gen_graft_post_init r) with
+  | Some (Some g) => Some (RaiseValueError g)
+  | Some None =>
+      match guard_outcome (gen_pc_post_init r) with
+      | Some (Some g) => Some (RaiseValueError g)
+      | Some None =>
+          match GenC17.init_guards (lr r) (beta1 r, beta2 r) (beta3 r) (epsilon r) (momentum r) (dampening r) (weight_decay r)
+                                   (mpd r) (freq r) (start r) (iro r) use_nesterov (ignored r) with
+          | Ret _ => Some (Hyper.dispatch r)
+          | Raise ValueError k => Some (RaiseValueError (guard_of_site k))
+          | _ => None
+          end
+      | None => None
+      end
+  | None => None
+  end.
+
+Theorem gen_ctor_eq_model : forall r use_nesterov, gen_ctor r use_nesterov = Some (Hyper.ctor r).
+Proof.
+  intros r nesterov. unfold gen_ctor, Hyper.ctor.
+  rewrite gen_graft_post_init_eq_model, gen_pc_post_init_eq_model.
+  destruct (graft_post_init r); [reflexivity|]. destruct (pc_post_init r); [reflexivity|].
+  pose proof (gen_init_guards_eq_model r nesterov) as H. unfold agrees in H.
+  destruct (GenC17.init_guards _ _ _ _ _ _ _ _ _ _ _ _ _) as [[b3 st]|e k|].
+  - destruct H as (-> & _). reflexivity.
+  - destruct e; try contradiction. rewrite H. reflexivity.
+  - contradiction.
+Qed.
+Print Assumptions gen_ctor_eq_model.
